@@ -63,7 +63,7 @@ def run(seed, tier, replay=None):
     result = {"evaluations": 0, "distinct_nontrivial": 0, "rule": "", "samples": [], "traces": 0, "dist": {}, "violations": [], "broken": []}
     attribution = lambda sc, r: [v for v in mix.mon_junit(sc, r) if v["kind"] in ("junit-attribution", "junit-xml", "junit-text")]
     from props import tim
-    r = mix.merge(result, mix.check([mix.mon_output, attribution], seed, tier, 14, 80))
+    r = mix.merge(result, mix.check([mix.mon_output, attribution], seed, tier, 15, 80))
     # output written on SIGTERM, just before a timed-out attempt exits
     r = mix.merge(r, tim.run_family("slow", seed, tier, 6, 40, kinds=("capture",)))
     d = run_display(seed, tier)
